@@ -114,6 +114,25 @@ def exec_WQ(t):
         elif route == 'config':
             x.config.op_out = out
             z = {'add': lambda: x + y, 'sub': lambda: x - y, 'mul': lambda: x * y}[op]()
+        elif route in ('viaacc', 'viaacc_call', 'viaacc_like'):
+            # the exact (optimally sized, possibly very wide) result is formed first and then moved into the register: an accumulator
+            # followed by a store, the conversion routes of C10 at the end of an arithmetic chain
+            fe_ = int(fx) + int(fy) if op == 'mul' else max(int(fx), int(fy))
+            ie_ = (int(nx) - int(fx)) + (int(ny) - int(fy)) if op == 'mul' else max(int(nx) - int(fx), int(ny) - int(fy)) + 1
+            if (int(a) + int(b)) % 2 or (op == 'sub' and sx == 'u' and sy == 'u'):
+                # a signed accumulator object wide enough for the exact result (created empty, filled through out=): a negative
+                # difference of unsigned operands is exact there too (the optimally sized result would be the unsigned exception of C07)
+                acc = Fxp(None, True, ie_ + fe_ + 2, fe_)
+                {'add': fxpmath.add, 'sub': fxpmath.sub, 'mul': fxpmath.mul}[op](x, y, out=acc)
+            else:
+                acc = {'add': lambda: x + y, 'sub': lambda: x - y, 'mul': lambda: x * y}[op]()
+            if route == 'viaacc':
+                z = out.set_val(acc)
+            elif route == 'viaacc_call':
+                z = out(acc)
+            else:
+                z = Fxp(acc, like=out)
+                out = z
         else:
             # 'same': no holder at all - both operands have the register's format and the result is sized like them
             x.config.op_sizing = 'same'; x.config.overflow = 'wrap'; x.config.rounding = r
@@ -240,7 +259,7 @@ def gen_WQ(tier, rng):
             sr = True if (sx or sy or op == 'sub') else rng.random() < 0.5
             fr = rng.choice([fe, max(0, fe - rng.randint(1, fe)) if fe else 0, rng.randint(0, fe) if fe else 0, fx, fy, 0])
             nr = rng.choice([8, 16, 24, 32, 40, 52, rng.randint(max(2, min(fr, 52)), 52)])
-            route = rng.choice(['out', 'out', 'npout', 'config'])
+            route = rng.choice(['out', 'out', 'npout', 'config', 'viaacc', 'viaacc_call', 'viaacc_like'])
         if ie + fr > 61 or not (-8 <= fr <= nr + 8):
             continue
         lox, hix = lims(sx, nx); loy, hiy = lims(sy, ny)
